@@ -1,6 +1,6 @@
 """Source of MANIFEST.json (run ./tools_manifest.py after editing)."""
 
-FIX_COMMITS = ['84c495b', 'ef12340']
+FIX_COMMITS = ['aa8a796']
 
 _ALL = ['C%02d' % i for i in range(1, 21)]
 
